@@ -119,6 +119,7 @@ CHECKS = {
         note="Bounds: <= 4 catalog writes per scenario, <= 2 further deviations (3 thorough), two databases. Duplicate notifications at the real channel manager (collection / partition announced twice, concurrently and one after the other) are the 'duplicates' part. fakeetcd models Get/prefix/Watch-with-prev-kv semantics; thorough conformance against embedded etcd is a separate part.",
         parts=[part("start", "core", "reader", "TestVerifC13Start", shards=(12, 16), budget=(150, 900), gomaxprocs=1),
                part("lookup", "core", "reader", "TestVerifC13Lookup", shards=(4, 8), budget=(120, 600)),
+               part("listing", "core", "reader", "TestVerifC13Listing", shards=(12, 16), budget=(150, 900), gomaxprocs=1),
                part("duplicates", "core", "reader", "TestVerifC13Duplicates", shards=(12, 16), budget=(150, 900), gomaxprocs=1)],
     ),
     "C10": dict(
